@@ -178,9 +178,18 @@ def run_property(P, tier, seed, replay=None):
         transitions += jr["generated"]
         # (6) confirm every reject on the real code, alone
         confirmed = []
-        for cid, i, reason in rejects:
-            if reason.startswith("harness_") or reason.startswith("oracle_") or reason == "unknown_event":
-                raise Infra("case %d event %d: %s (harness/oracle drift, not a verdict)" % (cid, i, reason))
+        # reasons "harness_*" / "oracle_*": the case could not be set up or has no usable oracle (e.g. an instrument the case
+        # relies on - a payloader producing the frames of a loss history, SetExtension building the packet - misbehaves).
+        # Never a verdict. A few such cases are left out (counted in the evidence); many mean the check itself is broken.
+        unjudgeable = [(cid, i, reason) for cid, i, reason in rejects
+                       if reason.startswith("harness_") or reason.startswith("oracle_") or reason == "unknown_event"]
+        if unjudgeable:
+            ids = {cid for cid, _, _ in unjudgeable}
+            if len(ids) > max(5, len(cases) // 50) or any(r == "unknown_event" for _, _, r in unjudgeable):
+                cid, i, reason = unjudgeable[0]
+                raise Infra("case %d event %d: %s (%d cases; harness/oracle drift, not a verdict)" % (cid, i, reason, len(ids)))
+            rejects = [x for x in rejects if x[0] not in ids]
+            ctx["unjudgeable_cases"] = len(ids)
         if rejects:
             rej_cases = []
             seen = set()
@@ -268,7 +277,7 @@ def run_property(P, tier, seed, replay=None):
                    evaluations=len(cases), distinct_nontrivial=len(nontriv), rule=P.get("rule", ""),
                    samples=samples, exhaustive=bool(P.get("exhaustive", False)),
                    trace_events=jr.get("events", 0), classes=classes, tlc_runs=ctx["tlc_runs"],
-                   cases_from_tlc=ctx.get("n_tlc_cases", 0), cases_random=ctx.get("n_rand_cases", 0), cases_from_repository_tests=ctx.get("n_corpus_cases", 0), cases_not_run_accessor_unavailable=ctx.get("unavailable_cases", 0),
+                   cases_from_tlc=ctx.get("n_tlc_cases", 0), cases_random=ctx.get("n_rand_cases", 0), cases_from_repository_tests=ctx.get("n_corpus_cases", 0), cases_not_run_accessor_unavailable=ctx.get("unavailable_cases", 0), cases_left_out_no_oracle=ctx.get("unjudgeable_cases", 0),
                    rejected_cases=len({c for c, _, _ in confirmed}),
                    known_findings={s: n for s, (k, n) in findings.items()},
                    checker_cmd="tlc (tla2tools 1.8.0) " + "; ".join(r["cmd"] for r in ctx["tlc_runs"][:3]))
